@@ -1,5 +1,6 @@
 import BSModel.Driver.Util
 import BSModel.Model.Heap
+import BSModel.Model.HeapSmooth
 /-! protocol handler for edit histories on the pointer heap (C01, C02)
 
 `run <kinds> <ops> <what>`:
@@ -9,7 +10,16 @@ import BSModel.Model.Heap
   (the string whose text is that label sequence; initially string id 7 has text `7`); an argument `A` is a label or
   `p<v.v>` for a plain `str` with that text
 * what: `ptr` (pointers after every step) or `all` (pointers and the seven iterators after every step)
-reply: per step `ok <dump>` or `err:<kind>` (the history stops there), joined by ` | `. -/
+reply: per step `ok <dump>` or `err:<kind>` (the history stops there), joined by ` | `.
+
+`smooth <kinds> <vals> <edges> <t>` (C02, the documented effect of `smooth()` against the model's `squashId`, by node id):
+* kinds as above; vals: `;`-separated, one per node: the text of a string as `.`-joined code points (`-` = empty; ignored for tags);
+  edges: `;`-separated `P>C` = `P.append(C)`, in order (`-` = none); t: the tag `smooth()` is called on
+reply: `ok <spec> # <impl> # <again>`: spec / impl list, for `t` and every tag beneath it in document order, `Q=<items>` with the
+children of `Q` after the call — spec: `squashId` of the children before the call (the documented effect, `Model/HeapSmooth.lean`),
+impl: the children in the heap `smooth` (the code mirror) returns; an item is `o<id>` (not a plain string), `s<id>:<text>` (a plain
+string that existed before the call: same object) or `n:<text>` (a plain string the call created); again: `1` iff a second call
+changes no children list. -/
 namespace BS.Drv.C01
 open BS.Heap BS.Drv
 
@@ -97,9 +107,51 @@ def runOps (iters : Bool) : Heap → List String → List String
       | .error e => ["err:" ++ errName e]
       | .ok h1 => ("ok " ++ dump h1 iters) :: runOps iters h1 os
 
+def itemStr (next : Nat) : IItem → String
+  | (k, .other _) => s!"o{k}"
+  | (k, .str v) => (if k < next then s!"s{k}:" else "n:") ++ ".".intercalate (v.map toString)
+
+def showItems (next : Nat) (l : List IItem) : String :=
+  if l.isEmpty then "-" else ",".intercalate (l.map (itemStr next))
+
+def buildEdges : Heap → List String → Option Heap
+  | h, [] => some h
+  | h, e :: es =>
+    match e.splitOn ">" with
+    | [p, c] =>
+      match p.toNat?, c.toNat? with
+      | some p, some c =>
+        match step h (.append p (.node c)) with
+        | .ok h1 => buildEdges h1 es
+        | .error _ => none
+      | _, _ => none
+    | _ => none
+
+def smoothReport (kinds vals edges t : String) : String :=
+  let ks := kinds.toList.map kindOf
+  let vs := (vals.splitOn ";").map (natList ".")
+  let h0 : Heap := { Heap.init ks with val := fun i => vs[i]?.getD [] }
+  match buildEdges h0 (splitNE ";" edges), t.toNat? with
+  | some h, some t =>
+    match descendants h t with
+    | .error _ => "err:descendants"
+    | .ok ds =>
+      let tags := (t :: ds).filter (fun q => (h.kind q).isTag)
+      let spec := " ".intercalate (tags.map fun q => s!"{q}={showItems h.next (squashId h.next (idView h q)).1}")
+      match smooth h t with
+      | .error e => "err:" ++ errName e
+      | .ok h' =>
+        let impl := " ".intercalate (tags.map fun q => s!"{q}={showItems h.next (idView h' q)}")
+        let again := match smooth h' t with
+          | .ok h'' => bit (tags.all fun q => h''.kids q == h'.kids q)
+          | .error _ => "e"
+        s!"ok {spec} # {impl} # {again}"
+  | _, _ => "bad-op"
+
 def handle : List String → String
   | ["run", kinds, ops, what] =>
     " | ".intercalate (runOps (what == "all") (initHeap kinds) (splitNE ";" ops))
+  | ["smooth", kinds, vals, edges, t] => smoothReport kinds vals edges t
   | _ => "bad-op"
 
 end BS.Drv.C01
